@@ -440,6 +440,6 @@ func check3(t *testing.T, c Case3) harness.Verdict {
 	return v
 }
 
-var Proxy = harness.Define(harness.Opts{Name: "proxy", Rule: ruleProxy, Quick: 60, Thorough: 500, Crashy: true}, genCase3, check3)
+var Proxy = harness.Define(harness.Opts{Name: "proxy", Rule: ruleProxy, Quick: 40, Thorough: 500, Crashy: true}, genCase3, check3)
 
 const ruleProxy = "submission.Proxy over a LogListManager with a scripted LogListRefresher (each case in a fresh -race child process, inside a synctest bubble): 1-3 published list versions (logs dropped / retired), a refresh script of updates, no-changes and errors on a 1-3 s grid, periodic root refreshes, 1-3 callers of AddChain / AddPreChain before, at and between the refresh instants (with and without waiting for Init). Non-trivial: the distributor was replaced at least once, or several callers, or a compatible log fails or hangs"
